@@ -40,6 +40,9 @@ class DDMModel:
         self.recs = [None, None]
 
     def update(self, err):
+        if isinstance(err, tuple):  # ("reset", err): the user called reset() before this sample
+            self._new_epoch()
+            err = err[1]
         if self.state == "drift":
             self._new_epoch()
         self.n += 1
@@ -80,6 +83,9 @@ class EDDMModel:
         self.stat = None
 
     def update(self, err):
+        if isinstance(err, tuple):
+            self._new_epoch()
+            err = err[1]
         if self.state == "drift":
             self._new_epoch()
         self.n += 1
@@ -130,6 +136,9 @@ class STEPDModel:
         self.recent = self.past = self.overall = None
 
     def update(self, err):
+        if isinstance(err, tuple):
+            self._new_epoch()
+            err = err[1]
         if self.state == "drift":
             self._new_epoch()
         self.total += 1
